@@ -83,7 +83,8 @@ def rpath_d(rng, closed=True, curvy=True):
             c2 = (round(p[0] + rng.uniform(-8, 8), 1), round(p[1] + rng.uniform(-8, 8), 1))
             d += " C%s,%s %s,%s %s,%s" % (c1[0], c1[1], c2[0], c2[1], p[0], p[1])
         elif curvy and k < 0.42:
-            d += " A%s %s 0 0 1 %s,%s" % (round(r / 2, 1), round(r / 3, 1), p[0], p[1])
+            d += " A%s %s %s %d %d %s,%s" % (round(r / 2, 1), round(r / 3, 1), rng.choice(["0", "0", "30", "12.3456789", "-7.25", "0.00049"]),
+                                           rng.random() < 0.5, rng.random() < 0.5, p[0], p[1])
         elif rel:
             d += " l%s,%s" % (round(p[0] - cur[0], 1), round(p[1] - cur[1], 1))
         elif k < 0.5:
@@ -109,6 +110,10 @@ def paint_attrs(rng, F, own=True):
         at.append(("opacity", rng.choice(["0.5", "0.25", "1", "0.8", "0", "1.5"] if F.degenerate else ["0.5", "0.25", "1", "0.8"])))
     if F.opacity and rng.random() < 0.2:
         at.append(("fill-opacity", rng.choice(["0.5", "0.75", "1"])))
+    if F.opacity and rng.random() < 0.06:
+        # products that vanish only after rounding (0.02*0.02 at 3 digits, 0.2*0.2 at 1, ...)
+        v = rng.choice(["0.02", "0.05", "0.2", "0.004", "0.0004"])
+        at = [(k, x) for k, x in at if k not in ("opacity", "fill-opacity")] + [("opacity", v)] + ([("fill-opacity", v)] if rng.random() < 0.7 else [])
     if F.evenodd and rng.random() < 0.15:
         at.append(("fill-rule", rng.choice(["evenodd", "nonzero"])))
     if F.strokes and rng.random() < 0.5:
@@ -223,6 +228,17 @@ class Gen:
         rng, F = self.rng, self.F
         n = rng.randint(0 if F.degenerate else 1, F.max_children)
         kids = [self.node(depth + 1) for _ in range(n)]
+        if F.degenerate and rng.random() < 0.25:
+            # a group whose content vanishes during conversion (pruned shapes), possibly next to one survivor
+            gone = ['<rect width="9" height="9" fill="none"/>', '<circle r="5" display="none"/>', '<path d="M1,1 L9,1" />',
+                    '<rect width="9" height="0"/>', '<ellipse rx="4" ry="3" opacity="0"/>', '<path d="M2,2 L2.0001,2 L2,2.0001 Z"/>']
+            kids = [rng.choice(gone) for _ in range(rng.randint(1, 3))] + ([self.shape(depth + 1)] if rng.random() < 0.4 else [])
+            rng.shuffle(kids)
+            inner = '<g opacity="%s">%s</g>' % (rng.choice(["0.5", "0.3"]), "".join(kids))
+            if rng.random() < 0.6:
+                return '<g opacity="%s">%s%s</g>' % (rng.choice(["0.5", "0.7"]), self.shape(depth + 1), inner) if rng.random() < 0.5 else \
+                       '<g opacity="%s">%s%s</g>' % (rng.choice(["0.5", "0.7"]), inner, self.shape(depth + 1))
+            return inner
         at = []
         pa = []
         if rng.random() < 0.5:
@@ -312,7 +328,9 @@ class Gen:
             at += ' gradientTransform="%s"' % rtransform(rng)
         if rng.random() < 0.2:
             at += ' spreadMethod="%s"' % rng.choice(["pad", "reflect", "repeat"])
-        stops = "".join('<stop offset="%s" stop-color="%s"/>' % (o, rng.choice(COLORS)) for o in ["0", "0.5", "1"][: rng.randint(2, 3)])
+        stop_ids = rng.random() < 0.15
+        stops = "".join('<stop%s offset="%s" stop-color="%s"/>' % (' id="%s"' % self.new_id("st") if stop_ids else "", o, rng.choice(COLORS))
+                        for o in ["0", "0.5", "1"][: rng.randint(2, 3)])
         href = ""
         if self.grad_ids and rng.random() < 0.25:
             self.xlink = True
